@@ -160,7 +160,7 @@ func (l *lexer) operatorContext(couldBeOperator bool) bool {
 			// ambiguous for the generated parser: try both readings
 			k := l.nAmbig
 			l.nAmbig++
-			if k < 10 && l.choices&(1<<uint(k)) != 0 {
+			if k < 32 && l.choices&(1<<uint(k)) != 0 {
 				l.Features["operator-after-slash"] = true
 				return true
 			}
@@ -524,6 +524,14 @@ func parseLit(text string, mode Mode, litEscapes, plainLookalikes bool) (e *xast
 		if n2 > nAmbig {
 			nAmbig = n2
 		}
+	}
+	if nAmbig > 10 {
+		// more ambiguous points than are enumerated: every point read the
+		// lenient way, and failing that no judgement at all
+		if e2, f2, _, err2 := parseWith(text, mode, 1<<32-1, litEscapes, plainLookalikes); err2 == nil {
+			return e2, f2, nil
+		}
+		return nil, map[string]bool{"too-ambiguous-to-judge": true}, nil
 	}
 	return nil, features, err
 }
